@@ -327,4 +327,6 @@ def run(ctx):
     ctx.guard(r6, ctx, prog)
     ctx.guard(r7, ctx, prog)
     ctx.guard(r5, ctx, prog)
+    from rules import C16_replay
+    ctx.guard(C16_replay.r8, ctx, prog)
     return prog
